@@ -137,7 +137,7 @@ def _from_slice(xs, c):
 
 
 def c03_delete_resift(inp, obs):
-    if len(inp) < 4 or inp[0] != 0 or inp[1] not in (0, 1):
+    if len(inp) < 4 or inp[0] != 0 or inp[1] not in (0, 1, 2, 3):
         return False
     h0, h1, h2 = _H(inp[2]), _H(inp[3]), _H(inp[3])
     w, o = list(inp[4:]), list(obs)
